@@ -35,6 +35,15 @@ func (s *DiscoveryStrategy) Name() string {
 	return StrategyDiscovery
 }
 
+// rejectionReason keeps "no endpoint lists the model at all" a 404 (model_not_found);
+// the more specific reasons (503) are for models that exist but cannot be served right now.
+func rejectionReason(modelEndpoints []string, reason string) string {
+	if len(modelEndpoints) == 0 {
+		return constants.RoutingReasonModelNotFound
+	}
+	return reason
+}
+
 // GetRoutableEndpoints refreshes discovery then routes based on updated model information
 func (s *DiscoveryStrategy) GetRoutableEndpoints(
 	ctx context.Context,
@@ -76,7 +85,7 @@ func (s *DiscoveryStrategy) GetRoutableEndpoints(
 		return nil, ports.NewRoutingDecision(
 				s.Name(),
 				ports.RoutingActionRejected,
-				constants.RoutingReasonModelUnavailableNoRefresh,
+				rejectionReason(modelEndpoints, constants.RoutingReasonModelUnavailableNoRefresh),
 			), domain.NewModelRoutingError(
 				modelName,
 				s.Name(),
@@ -116,7 +125,7 @@ func (s *DiscoveryStrategy) GetRoutableEndpoints(
 			return nil, ports.NewRoutingDecision(
 					s.Name(),
 					ports.RoutingActionRejected,
-					constants.RoutingReasonDiscoveryFailedNoFallback,
+					rejectionReason(modelEndpoints, constants.RoutingReasonDiscoveryFailedNoFallback),
 				), domain.NewModelRoutingError(
 					modelName,
 					s.Name(),
@@ -131,7 +140,7 @@ func (s *DiscoveryStrategy) GetRoutableEndpoints(
 			return nil, ports.NewRoutingDecision(
 					s.Name(),
 					ports.RoutingActionRejected,
-					constants.RoutingReasonDiscoveryFailedCompatibleOnly,
+					rejectionReason(modelEndpoints, constants.RoutingReasonDiscoveryFailedCompatibleOnly),
 				), domain.NewModelRoutingError(
 					modelName,
 					s.Name(),
@@ -181,7 +190,7 @@ func (s *DiscoveryStrategy) GetRoutableEndpoints(
 		return nil, ports.NewRoutingDecision(
 				s.Name(),
 				ports.RoutingActionRejected,
-				constants.RoutingReasonNoHealthyAfterDiscovery,
+				rejectionReason(modelEndpoints, constants.RoutingReasonNoHealthyAfterDiscovery),
 			), domain.NewModelRoutingError(
 				modelName,
 				s.Name(),
@@ -200,7 +209,7 @@ func (s *DiscoveryStrategy) GetRoutableEndpoints(
 		return nil, ports.NewRoutingDecision(
 				s.Name(),
 				ports.RoutingActionRejected,
-				constants.RoutingReasonModelUnavailableAfterDiscovery,
+				rejectionReason(modelEndpoints, constants.RoutingReasonModelUnavailableAfterDiscovery),
 			), domain.NewModelRoutingError(
 				modelName,
 				s.Name(),
